@@ -68,3 +68,26 @@ pub fn send_body_call(len: Option<u64>) -> Call<WithBody, ()> {
     crate::driver::call_with_body_head(&mut c).expect("head");
     c
 }
+
+/// Any request configuration, driven to the SendBody state.
+pub fn send_body_flow_cfg(cfg: &ReqCfg) -> Flow<(), SendBody> {
+    let f = cfg.build_prepare().expect("prepare");
+    let mut f = f.proceed();
+    crate::driver::write_whole_head(&mut f).expect("head");
+    match AnyFlow::SendRequest(f).proceed() {
+        Ok(Some(AnyFlow::SendBody(f))) => f,
+        _ => panic!("harness: expected SendBody"),
+    }
+}
+
+/// Any request configuration on the single-call API, head already written.
+pub fn send_body_call_cfg(cfg: &ReqCfg) -> Call<WithBody, ()> {
+    let mut c = Call::with_body(cfg.build_request()).expect("call");
+    crate::driver::call_with_body_head(&mut c).expect("head");
+    c
+}
+
+/// POST with the caller's own Host and framing header (nothing left for the analysis to amend).
+pub fn cfg_own_host(framing: (&str, &str)) -> ReqCfg {
+    ReqCfg::new("POST", "1.1", "http://a.test/p").orig("host", "own.test").orig(framing.0, framing.1)
+}
